@@ -802,6 +802,10 @@ class ResourceProvider(object):
         new_root_uuid = None
         if 'parent_provider_uuid' in updates:
             my_ids = res_ctx.provider_ids_from_uuid(context, self.uuid)
+            if my_ids is None:
+                # Deleted by another request since the handler read it.
+                raise exception.NotFound(
+                    'No resource provider with uuid %s found' % self.uuid)
             parent_uuid = updates.pop('parent_provider_uuid')
             if parent_uuid is not None:
                 parent_ids = res_ctx.provider_ids_from_uuid(
@@ -863,6 +867,10 @@ class ResourceProvider(object):
 
         db_rp = context.session.query(models.ResourceProvider).filter_by(
             id=id).first()
+        if db_rp is None:
+            # Deleted by another request since the handler read it.
+            raise exception.NotFound(
+                'No resource provider with uuid %s found' % self.uuid)
         db_rp.update(updates)
         context.session.add(db_rp)
 
